@@ -45,9 +45,7 @@ package share
 // row of a multi-row range, and by a freshly generated whole-row proof for row startRow+i otherwise: a
 // proof object that happens to sit in an unused slot of the range data never reaches the client.
 // genProofOf: the proof GenerateSharesProofs builds (nmt tree construction, assumed).
-//@ pure func genProofOf(row int, fromCol int, toCol int, size int, rowShares []libshare.Share) *nmt.Proof
-//@ extern github.com/celestiaorg/celestia-node/share/shwap.GenerateSharesProofs
-//@   ensures err == nil ==> result0 != nil && result0 == genProofOf(row, fromCol, toCol, size, rowShares)
+// (declared with the contract of shwap.GenerateSharesProofs in share/shwap/zz_contracts_verif.go)
 //@ pure func extendedOf(s []libshare.Share) []libshare.Share
 
 //@ func newGetRangeResult
